@@ -49,12 +49,12 @@ register('C16',
 register('C19',
          'Coq theorems over every version table satisfying the primary key: a row deleted by vacuum is identical (every non-key '
          'column) to the nearest earlier surviving row of the same entity and everything in between was deleted too; the first '
-         'version of every entity is kept; a version that differs from its immediate predecessor is kept (A,B,A). The model '
+         'version of every entity is kept; a version that differs from its immediate predecessor is kept (A,B,A); every as-of lookup (newest version at or below any transaction id) is answered by the vacuumed table with an equal row (C19_as_of_preserved). The model '
          '(per-entity pass with a last-surviving row) is compared with utils.vacuum (session.deleted and the table after '
          'commit) on random tables every run, including a joined-table hierarchy vacuumed through its base class (a model row spans both version tables).',
          COMMON_NOTE + 'naturally_equivalent (SQLAlchemy-Utils) is modelled as equality of all non-primary-key columns. The single '
-         'ordered pass over all entities is modelled per entity (the passes are independent per key).',
-         'Coq proof (induction over the sorted version list with a surviving-predecessor invariant) + vm_compute correspondence against utils.vacuum',
+         'ordered pass over all entities is regenerated from utils.py on every run (harness/pytrans_vacuum.py, Gen/VacuumGen.v) and proved to delete exactly the rows of the per-entity model for every order of ties (C19_code_pass_is_model, C19_code_pass_sorted).',
+         'Coq proof (induction over the sorted version list with a surviving-predecessor invariant; single-pass loop translated from the source and proved equal to the model) + vm_compute correspondence against utils.vacuum',
          'DESIGN.md §7 C19')
 
 register('C20',
